@@ -4,5 +4,6 @@ CONSTANTS Normal = {"n1", "n2"}
           Long = {"nL"}
           Empty = {"nE"}
           Keys = {1, 2}
+          BadKeys = {7}
           EncodeOn = FALSE
 INVARIANTS TypeOK ResultsAgree Refines MemAgrees Confined InvalidNeverStored
